@@ -1,6 +1,6 @@
 (* C38 — the static obligations, re-checked against the regenerated table
    (gen/C38_uses.v) on every run. *)
-From Coq Require Import List PArith Bool.
+From Coq Require Import List PArith NArith Bool.
 From ELA Require Import lib.Graph proof.Graph gen.C38_uses.
 Import ListNotations.
 
@@ -49,9 +49,34 @@ Proof.
   destruct Hs as [<-|[]]. eauto.
 Qed.
 
+(* clock rule: no clock / pid reader is reachable from a key-material function
+   once the out-edges of the logging packages are cut *)
+Lemma no_clock :
+  forall s c, In s C38_uses.sources -> In c C38_uses.clock ->
+    ~ reachable (cut C38_uses.graph C38_uses.clock_barrier) s c.
+Proof. apply reach_false_sound. vm_compute. reflexivity. Qed.
+
+Lemma no_clock_direct :
+  forall f c, In f C38_uses.direct -> edge C38_uses.graph f c -> ~ In c C38_uses.clock.
+Proof. apply no_direct_bad_sound. vm_compute. reflexivity. Qed.
+
+(* errors of calls that draw from crypto/rand are propagated, or checked with
+   an error branch that leaves the normal path (or the call is classified as
+   public randomness) *)
+Lemma rand_errors_handled :
+  forall f k, In (f, k) C38_uses.rand_err_sites -> k = 0%N \/ k = 1%N \/ k = 4%N.
+Proof.
+  assert (H : forallb (fun s => N.eqb (snd s) 0 || N.eqb (snd s) 1 || N.eqb (snd s) 4) C38_uses.rand_err_sites = true)
+    by (vm_compute; reflexivity).
+  rewrite forallb_forall in H. intros f k Hin. specialize (H _ Hin). simpl in H.
+  apply orb_prop in H. destruct H as [H|H]; [apply orb_prop in H; destruct H as [H|H]|];
+    apply N.eqb_eq in H; auto.
+Qed.
+
 Lemma static_nonvacuous :
   forallb (fun a => existsb (Pos.eqb (fst a)) C38_uses.sources) C38_uses.anchors = true
   /\ negb (Nat.eqb (length C38_uses.anchors) 0) = true
   /\ negb (Nat.eqb (length C38_uses.bad) 0) = true
-  /\ negb (Nat.eqb (length C38_uses.direct) 0) = true.
+  /\ negb (Nat.eqb (length C38_uses.direct) 0) = true
+  /\ negb (Nat.eqb (length C38_uses.rand_err_sites) 0) = true.
 Proof. vm_compute. repeat split. Qed.
